@@ -63,6 +63,8 @@ def cases():
         lambda e: e["res"].__setitem__(1, [0, 0]), "construct")
     add("shadow weight", drivers.drv_compress, {"x": [[1, 2, 0], [0, 0, 2]], "kind": "2d0"}, "compress",
         lambda e: next(r for r in e["runs"] if r["m"] == "shadow")["r"].__setitem__(2, 2), "shadow:dominance")
+    add("many clauses at once (pretty-printed verdict)", drivers.drv_compress, {"x": [[1, 2, 0, -3], [0, 0, 2, 5]], "kind": "2d0"}, "compress",
+        lambda e: [r["r"].reverse() for r in e["runs"]], "shadow:dominance")
     sel = {"recipe": cfg, "prios_list": [[{"b": 1}, {"c": -1}]], "solvers": ["capture"], "leaf_opts": [False]}
     add("objective entries swapped", drivers.drv_select, sel, "select",
         lambda e: e["received"]["objectives"][0].reverse(), "ranks")
